@@ -114,7 +114,7 @@ func c02Verified(fl *Flow, v certVerifier, e SuccessExit, facts FactSet) bool {
 		}
 	case "VerifyAggregateQC":
 		want = func(k string) bool {
-			return strings.HasPrefix(k, kBaseBV) && strings.Contains(k, ", "+v.sigKey+", make@")
+			return strings.HasPrefix(k, kBaseBV) && strings.Contains(k, ", "+v.sigKey+", ") // the batch's content is C02.2 (per-signer messages)
 		}
 	}
 	if e.Via != nil && want(fl.K.Key(e.Via)) {
@@ -143,10 +143,38 @@ func c02AggMessages(c *Ctx) {
 	msgs := bv.Common().Args[1]
 	ok := false
 	detail := "no map update of the message batch found"
+	// the batch may be built by a private helper of the package: follow the value to where it is made
+	aggKey := "p1"
+	if lvs := leaves(fl, msgs, bv); len(lvs) == 1 {
+		if in, isIn := lvs[0].Val.(ssa.Instruction); isIn && in.Parent() != fn && in.Parent() != nil {
+			helper := in.Parent()
+			for _, s := range callsIn(fn, false, func(cc *ssa.CallCommon) bool { return calleeIs(cc, helper) }) {
+				for i, a := range s.Common().Args {
+					if fl.K.Key(a) == "p1" {
+						aggKey = "p" + itoa(i)
+					}
+				}
+			}
+			msgs, fn = lvs[0].Val, helper
+			fl = NewFlow(p, helper)
+		}
+	}
 	eachInstr(fn, func(in ssa.Instruction) {
 		mu, isMU := in.(*ssa.MapUpdate)
-		if !isMU || mu.Map != msgs {
+		if !isMU {
 			return
+		}
+		if mu.Map != msgs {
+			// the map held in a named result / local of the helper
+			same := false
+			for _, lf := range leaves(fl, mu.Map, in) {
+				if lf.Val == msgs {
+					same = true
+				}
+			}
+			if !same {
+				return
+			}
 		}
 		// value = TimeoutMsg.ToBytes(complit)
 		call, isCall := mu.Value.(*ssa.Call)
@@ -170,12 +198,12 @@ func c02AggMessages(c *Ctx) {
 		rangeOK := false
 		if ex, isEx := mu.Key.(*ssa.Extract); isEx {
 			if nx, isN := ex.Tuple.(*ssa.Next); isN {
-				if rg, isR := nx.Iter.(*ssa.Range); isR && fl.K.Key(rg.X) == "(hs.AggregateQC).QCs(p1)" {
+				if rg, isR := nx.Iter.(*ssa.Range); isR && fl.K.Key(rg.X) == "(hs.AggregateQC).QCs("+aggKey+")" {
 					rangeOK = strings.Contains(siK, fl.K.Key(nx)+"#2")
 				}
 			}
 		}
-		ok = idK == keyK && viewK == kAggView+"p1)" && strings.Contains(siK, "NewSyncInfoWith[hs.QuorumCert](") && rangeOK
+		ok = idK == keyK && viewK == kAggView+aggKey+")" && strings.Contains(siK, "NewSyncInfoWith[hs.QuorumCert](") && rangeOK
 		detail = "messages[" + keyK + "] = TimeoutMsg{ID:" + idK + ", View:" + viewK + ", SyncInfo:" + siK + "}.ToBytes()"
 	})
 	c.Check(ok, "C02.2", "VerifyAggregateQC: per-signer messages", p.Pos(bv.Pos()),
@@ -489,6 +517,9 @@ func c02AllResults(c *Ctx, fl *Flow, inst string, exits []SuccessExit) {
 		nGo++
 		cl := funcOfValue(g.Call.Value)
 		if cl == nil {
+			cl = g.Call.StaticCallee() // `go x.verifyAsync(...)`: a named method instead of a closure
+		}
+		if cl == nil {
 			return
 		}
 		eachInstr(cl, func(in2 ssa.Instruction) {
@@ -501,6 +532,9 @@ func c02AllResults(c *Ctx, fl *Flow, inst string, exits []SuccessExit) {
 	})
 	// the tested error
 	dep := false
+	// the results may be collected by a private helper of the package
+	sliceEnterHelpers, sliceProg = funcPkgPath(fn), p
+	defer func() { sliceEnterHelpers, sliceProg = "", nil }()
 	for _, f := range collectNilTests(fl, exits) {
 		if backwardSlice(f, func(x ssa.Value) bool {
 			u, ok := x.(*ssa.UnOp)
@@ -698,8 +732,12 @@ func c02SignedBytes(c *Ctx) {
 	}
 	read := fieldsRead(tb, namedType(p, "", "TimeoutMsg"))
 	set := map[string]bool{}
+	vaFns := map[*ssa.Function]bool{}
+	for _, hf := range helperClosure(p, va, 2) {
+		vaFns[hf] = true
+	}
 	for _, e := range p.constructSites(namedType(p, "", "TimeoutMsg")) {
-		if e.Fn == va && e.Alloc != nil {
+		if vaFns[e.Fn] && e.Alloc != nil {
 			for _, f := range []string{"ID", "View", "ViewSignature", "MsgSignature", "SyncInfo"} {
 				if complitField(e.Alloc, f) != nil {
 					set[f] = true
@@ -780,6 +818,13 @@ func c02CheckPop(c *Ctx) {
 	p := c.P
 	fn := p.Method("security/crypto", "bls12Base", "checkPop")
 	pv := p.Method("security/crypto", "bls12Base", "popVerify")
+	if pv == nil {
+		pv = p.Func("security/crypto", "popVerify") // the verification does not need the receiver: may be a function
+	}
+	pvKey := ""
+	if pv != nil {
+		pvKey = shortName(pv) + "("
+	}
 	if fn == nil || pv == nil {
 		c.Unresolved("C02.5/pop", "bls12Base.checkPop", "anchor missing")
 		return
@@ -793,7 +838,7 @@ func c02CheckPop(c *Ctx) {
 		facts := e.Facts
 		hit := trueOf(facts, func(k string) bool { return strings.Contains(k, "bls12Base.popCache[") && strings.HasSuffix(k, "#0") }) &&
 			trueOf(facts, func(k string) bool { return strings.Contains(k, "bls12Base.popCache[") && strings.HasSuffix(k, "#1") })
-		verified := (e.Via != nil && calleeIs(&e.Via.Call, pv)) || errNilOf(facts, func(k string) bool { return strings.HasPrefix(k, "(*hs/security/crypto.bls12Base).popVerify(") })
+		verified := (e.Via != nil && calleeIs(&e.Via.Call, pv)) || errNilOf(facts, func(k string) bool { return strings.HasPrefix(k, pvKey) })
 		// `return err` where err is popVerify's result
 		if !verified {
 			if call, ok := retValue(e.Ret, 0).(*ssa.Call); ok && calleeIs(&call.Call, pv) {
@@ -827,15 +872,16 @@ func c02CheckPop(c *Ctx) {
 					okKey = false
 				}
 				vk := fl.K.Key(x.Value)
-				if strings.HasPrefix(vk, "((*hs/security/crypto.bls12Base).popVerify(") && strings.HasSuffix(vk, " == nil)") {
+				if strings.HasPrefix(vk, "("+pvKey) && strings.HasSuffix(vk, " == nil)") {
 					okVal = true
 				}
 			}
 		case *ssa.Call:
 			if calleeIs(&x.Call, pv) {
-				k1 := fl.K.Key(x.Call.Args[1])
-				if strings.Contains(k1, "ReplicaInfo.PubKey") {
-					okArgs = true
+				for _, a := range x.Call.Args {
+					if strings.Contains(fl.K.Key(a), "ReplicaInfo.PubKey") {
+						okArgs = true
+					}
 				}
 			}
 		}
